@@ -910,6 +910,16 @@ class MethodMixin:
                 self.oblige('safety:find-start', st_ >= 0, node, 'str.find with a non-negative start (a negative start counts from the end: not modelled)')
                 self.path.assume(st_ >= 0)
             return z3.IndexOf(s, lift(args[0]), st_)
+        if name in ('index', 'rindex') and len(args) == 1:
+            r_ = self.m_str(recv, 'find' if name == 'index' else 'rfind', args, kwargs, node)
+            if not self.cur_pure():
+                if self.implicit_as_paths:
+                    if self.path.branch(r_ < 0):
+                        raise PyRaise(ValueError, (), node, implicit=True)
+                else:
+                    self.oblige('safety:str-index', r_ >= 0, node, 'str.index/rindex: the substring is present (ValueError otherwise)')
+                    self.path.assume(r_ >= 0)
+            return r_
         if name in ('rfind', 'count') and len(args) == 1:
             # abstract, with the range facts the callers rely on: rfind in [-1, len-len(sub)], -1 iff absent; count >= 0, 0 iff absent
             sub_ = lift(args[0])
